@@ -136,6 +136,28 @@ Definition substring_spec (sh : shell) (r : pref) (off : Z) (olen : option Z) : 
       end
   end.
 
+(** bash evaluates the offset only for a parameter that has words, and the length only when the
+    offset selects a position inside the value. *)
+Definition substring_spec_ev (sh : shell) (r : pref) (off : operand) (olen : option operand)
+  : res (list str * option str) * Z :=
+  let sp := shape_of r in
+  let ws := match sp with
+            | Scalar => match words sh r with Some l => [join_with SP l] | None => [] end
+            | _ => match r with RArgs _ => shell_name sh :: args sh | _ => elems (var sh) end
+            end in
+  let k := match sp, r with Scalar, _ => KScalar | _, RArgs _ => KArgs | _, _ => KArray end in
+  let len := match sp, ws with Scalar, [w] => Z.of_nat (length w) | _, _ => Z.of_nat (length ws) end in
+  if is_nil ws then (substring_spec sh r 0 None, 0)
+  else if oerr off then (Fail, 0)
+  else match bash_bounds k len (oval off) None with
+       | Empty => (substring_spec sh r (oval off) None, oinc off)
+       | _ => match olen with
+              | None => (substring_spec sh r (oval off) None, oinc off)
+              | Some l => if oerr l then (Fail, oinc off)
+                          else (substring_spec sh r (oval off) (Some (oval l)), oinc off + oinc l)
+              end
+       end.
+
 (** * Removal: the oracle of Remove.v applied word by word. *)
 Definition removal_oracle (sh : shell) (r : pref) (o : rop) (m : option (str -> bool)) : res (list str * option str) :=
   let f := match m with
